@@ -21,6 +21,7 @@ type RealResult struct {
 	Handler  []HandlerCall
 	CmdHand  []ExecEntry // CommandHandler invocations
 	SetupErr error
+	IniErr   error
 }
 
 var errHandlerSentinel = errors.New("sentinel: unknown-option handler error")
@@ -29,6 +30,7 @@ type RealCfg struct {
 	Handler    *HandlerSpec
 	CmdHandler bool  // install a CommandHandler that logs and calls Execute
 	ExecErr    error // error returned by Execute
+	Ini        string // INI text read (normal mode) before the command line is parsed
 }
 
 // withEnv sets the given variables for the duration of f.
@@ -113,7 +115,14 @@ func RunReal(d *Decl, args []string, env map[string]string, cfg *RealCfg) *RealR
 		}
 	}
 	withEnv(env, func() {
-		rr.Panic = Safely(func() { rr.Rest, rr.Err = b.P.ParseArgs(append([]string(nil), args...)) })
+		rr.Panic = Safely(func() {
+			if cfg.Ini != "" {
+				if err := flags.NewIniParser(b.P).Parse(strings.NewReader(cfg.Ini)); err != nil {
+					rr.IniErr = err
+				}
+			}
+			rr.Rest, rr.Err = b.P.ParseArgs(append([]string(nil), args...))
+		})
 	})
 	return rr
 }
